@@ -43,7 +43,7 @@ def do_import():
         if not ent.endswith('.out'):
             continue
         pid = ent[:-4]
-        for m in ('m1', 'm2', 'm3', 'm4', 'm5', 'm6', 'm7', 'm8', 'm9', 'm10', 'm11', 'm12', 'm13'):
+        for m in ('m1', 'm2', 'm3', 'm4', 'm5', 'm6', 'm7', 'm8', 'm9', 'm10', 'm11', 'm12', 'm13', 'm14'):
             src = os.path.join('/tmp/mut', ent)
             if not os.path.exists(os.path.join(src, m + '.diff')):
                 continue
